@@ -21,6 +21,7 @@ use std::sync::Arc;
 type Tracer = Box<dyn Fn(&RState) -> Prog>;
 type Evalf = Box<dyn Fn(&RState) -> f64>;
 type MaxRho = Box<dyn Fn(&[f64]) -> f64>;
+type Contribs = Box<dyn Fn(&RState) -> Vec<(String, f64)>>;
 
 struct Case {
     name: String,
@@ -38,6 +39,9 @@ struct Case {
     fb: Evalf,
     rho_a: MaxRho,
     rho_b: MaxRho,
+    /// the named contributions (beta A) in plain f64: a failure of the f64 comparison reports which contributions differ
+    ca: Contribs,
+    cb: Contribs,
     /// for the AC-canonicaliser (Canon.v): number of shared state variables, the selections of them that are the variables
     /// of A and of B, and which shared variables are literally zero
     canon: Option<(usize, Vec<usize>, Vec<usize>, Vec<bool>)>,
@@ -50,6 +54,12 @@ fn tracer<R: Residual + 'static>(m: Arc<R>) -> Tracer {
 }
 fn evalf<R: Residual + 'static>(m: Arc<R>) -> Evalf {
     Box::new(move |s| *trace::eval_f64(m.as_ref(), s).last().unwrap())
+}
+fn contribs<R: Residual + 'static>(m: Arc<R>) -> Contribs {
+    Box::new(move |s| {
+        let sh = feos_core::StateHD::new(s.t, s.v, Array1::from_vec(s.n.clone()));
+        m.residual_helmholtz_energy_contributions(&sh)
+    })
 }
 fn maxrho<R: Residual + 'static>(m: Arc<R>) -> MaxRho {
     Box::new(move |n| m.compute_max_density(&Array1::from_vec(n.to_vec())))
@@ -80,6 +90,8 @@ fn case<A: Residual + 'static, B: Residual + 'static>(
         b: tracer(b.clone()),
         fa: evalf(a.clone()),
         fb: evalf(b.clone()),
+        ca: contribs(a.clone()),
+        cb: contribs(b.clone()),
         rho_a: maxrho(a),
         rho_b: maxrho(b),
         canon: None,
@@ -294,6 +306,26 @@ fn cases(full: bool) -> Vec<Case> {
             sel_a.extend(keep.iter().map(|&i| 2 + i));
             c.canon = Some((n + 2, sel_a, (0..n + 2).collect(), zs));
             c.oracle_only = oracle_only;
+            v.push(c);
+        }
+    }
+    // ---------- generic splitting: every configuration with component i listed twice (`subset` with a repeated index duplicates the record and
+    //   the rows/columns of the binary matrix), N_i = N_i' + N_i''; compared in plain f64 (labelled test)
+    for cfg in configs::all(true).into_iter().chain(configs::literal()) {
+        let n = cfg.ncomp;
+        let id: Vec<usize> = (0..n).collect();
+        for i in if n > 1 { vec![0, n - 1] } else { vec![0] } {
+            let mut idx = id.clone();
+            idx.push(i);
+            let map = Box::new(move |s: &RState, rng: &mut Rng| {
+                let f = rng.range(0.1, 0.9);
+                let mut m = s.n.clone();
+                m.push(s.n[i] * (1.0 - f));
+                m[i] = s.n[i] * f;
+                RState { t: s.t, v: s.v, n: m }
+            });
+            let mut c = case(&format!("gsplit{}_{}", i, cfg.name), "split", false, n, cfg.t_scale, cfg.model.subset(&id), cfg.model.subset(&idx), map, vec![]);
+            c.oracle_only = true;
             v.push(c);
         }
     }
@@ -642,7 +674,13 @@ pub fn run(out_dir: &str, tier: &str, seed: u64, only: Option<String>) -> Value 
             let rel = (x - y).abs() / sc;
             if !(rel <= 1e-7) && !(x.is_nan() && y.is_nan()) {
                 if fails.len() < 5 {
-                    fails.push(json!({"state_a": s.vars(), "state_b": sb.vars(), "a": x, "b": y}));
+                    let (ka, kb) = ((c.ca)(&s), (c.cb)(&sb));
+                    let differing: Vec<String> = if ka.len() == kb.len() && ka.iter().zip(&kb).all(|(p, q)| p.0 == q.0) {
+                        ka.iter().zip(&kb).filter(|(p, q)| !((p.1 - q.1).abs() <= 1e-9 * (p.1.abs() + q.1.abs()) + 1e-12 * s.n.iter().sum::<f64>())).map(|(p, _)| p.0.clone()).collect()
+                    } else {
+                        vec!["(different lists of contributions)".to_string()]
+                    };
+                    fails.push(json!({"state_a": s.vars(), "state_b": sb.vars(), "a": x, "b": y, "differing_contributions": differing}));
                 }
             } else if rel.is_finite() {
                 worst = worst.max(rel);
